@@ -28,6 +28,10 @@ func signImageLayout(id string) peLayout {
 		return peLayout{bits: 32, lfanew: 128, secs: []peSec{{13, 2}, {32, 1}}, slack: 0, gappos: 1, trail: 0}
 	case "u3t":
 		return peLayout{bits: 64, lfanew: 72, secs: []peSec{{33000, 1}}, slack: 3, gappos: 1, trail: 11}
+	case "u0d10": // ten data directories (the Certificate Table entry is the fifth of ten, not "twelve before the end")
+		return peLayout{bits: 64, lfanew: 64, secs: []peSec{{40, 1}, {24, 2}}, slack: 8, gappos: 1, trail: 0, ndirs: 10}
+	case "u5d6": // PE32 with six data directories, odd length
+		return peLayout{bits: 32, lfanew: 128, secs: []peSec{{13, 2}, {32, 1}}, slack: 0, gappos: 1, trail: 3, ndirs: 6}
 	case "u0n":
 		return peLayout{bits: 32, lfanew: 64, secs: nil, slack: 0, gappos: 1, trail: 0}
 	}
